@@ -91,6 +91,10 @@ func (x *Exec) drain(st *State, fr *Frame) {
 }
 
 func (x *Exec) callDeferred(st *State, fr *Frame, d *Deferred) {
+	if di, ok := d.Instr.(*ssa.Defer); ok {
+		x.curDefer = di
+		defer func() { x.curDefer = nil }()
+	}
 	x.dispatch(st, fr, nil, d.Call, d.Fn, d.Args, d.Instr.Pos(), true)
 }
 
@@ -280,6 +284,12 @@ func (x *Exec) unknownCall(st *State, fr *Frame, dst ssa.Value, c *ssa.CallCommo
 	if method != "" && isLoggerType(c.Value.Type()) {
 		x.note("watermill.LoggerAdapter methods: assumed total and without effect on tracked state")
 		x.bindFresh(st, fr, dst, sig, "log")
+		if method == "With" && dst != nil {
+			if rv := fr.Regs[dst]; rv != nil && rv.Term != nil {
+				x.note("watermill.LoggerAdapter.With: assumed to return a usable (non-nil) logger")
+				st.Assume(Neq(rv.Term, IntLit(0)))
+			}
+		}
 		return
 	}
 	if method == "Error" && typeName(c.Value.Type()) == "error" {
@@ -447,7 +457,11 @@ func (x *Exec) ghostSets(st *State, fr *Frame, site string, extra map[string]*Va
 			unsupportedf("ghost set: target must be a pointer to a struct, value a scalar")
 		}
 		key := heapKeyField(ns, "#"+lhs.Args[0].Op)
-		h := st.heapGet(key, ArrSort(SInt, SInt))
+		srt, _ := x.V.ghostFieldSort(ns, lhs.Args[0].Op)
+		if val.Term.Sort != srt {
+			unsupportedf("ghost set %s: value of sort %s for a ghost field of sort %s", lhs.Args[0].Op, val.Term.Sort, srt)
+		}
+		h := st.heapGet(key, ArrSort(SInt, srt))
 		st.Heap[key] = Store(h, obj.Term, val.Term)
 	}
 }
@@ -535,6 +549,32 @@ func (x *Exec) applyContract(st *State, fr *Frame, dst ssa.Value, callee *ssa.Fu
 		}
 	}
 	env := x.calleeEnv(st, callee, args, freeVars)
+	// a callee entered with a lock held (ghost holds L): the caller holds it and the monitor's invariants hold now
+	for _, cl := range fc.Of("ghost") {
+		if !strings.HasPrefix(cl.Text, "holds ") {
+			continue
+		}
+		e, err := ParseExpr(strings.TrimPrefix(cl.Text, "holds "))
+		if err != nil {
+			panic(unsupported{err.Error()})
+		}
+		lv := x.V.evalLockRef(env, x, st, e)
+		id := x.refOf(lv).String()
+		oname := fmt.Sprintf("pre:lock-held:%s@call:%s#%d", strings.TrimPrefix(cl.Text, "holds "), name, k)
+		if hh, ok := st.Held[id]; ok {
+			x.oblige(st, "pre", oname, True, pos, cl.Text)
+			x.checkHeldInvariants(st, hh, fmt.Sprintf("call:%s#%d", name, k), pos)
+		} else if x.V.entryHeld[id] {
+			x.oblige(st, "pre", oname, True, pos, cl.Text)
+			for _, hh := range x.V.entryHeldList {
+				if hh.ID == id {
+					x.checkHeldInvariants(st, hh, fmt.Sprintf("call:%s#%d", name, k), pos)
+				}
+			}
+		} else {
+			x.failHard(st, "pre", oname, pos, "the callee's contract says it is entered holding "+cl.Text[6:]+", which the caller does not hold here")
+		}
+	}
 	for _, cl := range fc.Of("requires") {
 		g := x.V.evalBool(env, cl.E)
 		if x.mayPanic() && strings.HasPrefix(cl.Label, "panics-otherwise") {
